@@ -1,0 +1,10 @@
+//go:build verif
+
+package circularbuffer
+
+// VerifState returns a copy of the ring slots and the bookkeeping fields.
+func (queue *Queue[T]) VerifState() (values []T, start, end int, full bool, maxSize, size int) {
+	values = make([]T, len(queue.values))
+	copy(values, queue.values)
+	return values, queue.start, queue.end, queue.full, queue.maxSize, queue.size
+}
